@@ -129,10 +129,12 @@ package internals
 // ctx.AddIssue(ctx.IssueFromTest(ctx.Test, val)) does (verdict: fail).
 //@ spec issued_from_test(c, t, val) = LC(c) == push(old(LC(c)), last(LC(c))) && last(LC(c)) != nil && last(LC(c)).Code == t.IssueCode && last(LC(c)).Dtype == c.DType && last(LC(c)).Value == val && last(LC(c)).Params == t.Params && last(LC(c)).Path == ite(t.IssuePath != "", t.IssuePath, prender(PSEQ(c.Path)))
 //@ spec tfunc_pass(c) = unchanged(c.Exit) && unchanged(LC(c))
-//@ spec tfunc_fail(c, val) = ite(c.CanCatch, c.Exit && unchanged(LC(c)), unchanged(c.Exit) && issued_from_test(c, c.Test, val))
+//@ spec issued_by_test(c, t, val) = LC(c) == push(old(LC(c)), last(LC(c))) && last(LC(c)) != nil && last(LC(c)).Code == t.IssueCode && last(LC(c)).Dtype == c.DType && last(LC(c)).Params == t.Params && last(LC(c)).Path == ite(t.IssuePath != "", t.IssuePath, prender(PSEQ(c.Path)))
+//@ spec tfunc_fail(c, val) = ite(c.CanCatch, c.Exit && unchanged(LC(c)), unchanged(c.Exit) && issued_by_test(c, c.Test, val))
 //@ functype TFunc(self, val, ctx)
 //@   requires[C12] ctx_is_schemactx: istype(ctx, *SchemaCtx) && wfctx(ctx.(*SchemaCtx))
 //@   requires[C12,C01] test_set: ctx.(*SchemaCtx).Test != nil
+//@   requires[C12] own_value: val == ctx.(*SchemaCtx).ValPtr || val == rv_iface(rv_elem(rv_of(ctx.(*SchemaCtx).ValPtr)))
 //@   modifies ctx.(*SchemaCtx).Exit, recfp(ctx.(*SchemaCtx).ExecCtx), TR(ctx.(*SchemaCtx))
 //@   ghost_update TR(ctx.(*SchemaCtx)) := TR(ctx.(*SchemaCtx)) + 1
 //@   ensures[C01,C02,C05] outcome: tfunc_pass(ctx.(*SchemaCtx)) || tfunc_fail(ctx.(*SchemaCtx), val)
@@ -371,9 +373,18 @@ package internals
 //@   modifies dpinvoked(self)
 //@   ghost_update dpinvoked(self) := true
 //@   ensures result1 != nil ==> result1.Code != ""
+//@   ensures !istype(result0, DpFactory)
 
 //@ func TryNewAnyDataProvider(val)
 //@   trusted
 //@   pure
 //@   ensures[C06] result1 == nil ==> result0 != nil
 //@   ensures result1 != nil ==> true
+
+// UnwrapPtr follows pointers to the value they point to (reflect loop: trusted).
+//@ specfun unwrapped(Iface) Iface
+//@ func UnwrapPtr(x)
+//@   trusted
+//@   pure
+//@   ensures result == unwrapped(x)
+//@   ensures istype(result, DpFactory) ==> istype(x, DpFactory)
